@@ -146,7 +146,22 @@ def run_lv(ctx, profile, extra=None, prop=None, timeout=3600, tier=None):
     if p.returncode == 3 and os.path.exists(out + ".stuck"):
         # A case exceeded the wall-clock nomination time: decide on CPU time, in isolation.
         case = int(open(out + ".stuck").read().strip())
-        return _confirm_stuck(ctx, cmd, out, case)
+        try:
+            return _confirm_stuck(ctx, cmd, out, case)
+        except Inconclusive:
+            # merely slow (a loaded machine): the nomination decided nothing and the workload is not done.
+            # Once more, with a nomination time twenty times as long; a second nomination stays undecided.
+            os.remove(out + ".stuck")
+            if os.path.exists(out):
+                os.remove(out)
+            try:
+                p = subprocess.run(cmd, stdin=subprocess.DEVNULL, stdout=subprocess.DEVNULL, stderr=subprocess.DEVNULL,
+                                   timeout=timeout * 2, env=dict(ENV, LV_STUCK_AFTER_S="900"))
+            except subprocess.TimeoutExpired:
+                raise Inconclusive("harness watchdog (%ds) fired for %s" % (timeout * 2, " ".join(cmd)))
+            if p.returncode == 3 and os.path.exists(out + ".stuck"):
+                case = int(open(out + ".stuck").read().strip())
+                return _confirm_stuck(ctx, cmd, out, case)
     if p.returncode != 0 or not os.path.exists(out):
         doc = _confirm_crash(ctx, cmd, out, p.returncode)
         if doc is not None:
